@@ -133,7 +133,14 @@ Tags ==
    [tname |-> "nm", tb |-> <<110, 109>>, opts |-> <<"omitempty">>],
    [tname |-> "", tb |-> <<>>, opts |-> <<"inline">>],
    [tname |-> "", tb |-> <<>>, opts |-> <<"squash">>],
-   [tname |-> "", tb |-> <<>>, opts |-> <<"inline", "omitempty">>]}
+   [tname |-> "", tb |-> <<>>, opts |-> <<"inline", "omitempty">>],
+   \* two options at once: omit decides whatever else is asked for, in either order
+   [tname |-> "", tb |-> <<>>, opts |-> <<"omit", "inline">>],
+   [tname |-> "", tb |-> <<>>, opts |-> <<"inline", "omit">>],
+   [tname |-> "nm", tb |-> <<110, 109>>, opts |-> <<"omitempty", "omit">>],
+   [tname |-> "", tb |-> <<>>, opts |-> <<"squash", "omit">>]}
+\* (inline together with omitempty is a documented configuration error; the library reports it even for a field
+\*  that also says omit - a refusal, not a wrong value - so that triple is not generated)
 \* field names: exported (mixed case, digits), unexported
 RichNames == {<<"Alpha", <<65, 108, 112, 104, 97>>>>, <<"URLx9", <<85, 82, 76, 120, 57>>>>, <<"hidden", <<104, 105, 100, 100, 101, 110>>>>}
 PoorField(j) == Fld(IF j = 1 THEN "P" ELSE IF j = 2 THEN "Q" ELSE "R", <<79 + j>>, tInt)
